@@ -14,6 +14,7 @@ import random
 import shutil
 import sys
 import tempfile
+import threading
 import time
 from typing import Any, Dict, List, Optional
 
@@ -29,6 +30,7 @@ KNOWN_FINDINGS = os.path.join(VERIF, "known_findings.json")
 GUARD = "DATASHARD_VERIF"
 
 _scratch_root: Optional[str] = None
+_scratch_lock = threading.Lock()
 
 
 class MachineryError(Exception):
@@ -37,6 +39,12 @@ class MachineryError(Exception):
 
 def scratch_root() -> str:
     """Per-process scratch directory (tmpfs when available); removed at exit."""
+    global _scratch_root
+    with _scratch_lock:
+        return _scratch_root_locked()
+
+
+def _scratch_root_locked() -> str:
     global _scratch_root
     if _scratch_root is None:
         base = "/dev/shm" if os.path.isdir("/dev/shm") and os.access("/dev/shm", os.W_OK) else tempfile.gettempdir()
